@@ -311,6 +311,9 @@ def judge(view: ProtoView, exposed: list, kept: list, vals: list[dict], feed: di
 _PLAIN_CACHE: dict = {}
 
 
+_SAMPLING_OPS = {"RandomUniform", "RandomNormal", "RandomUniformLike", "RandomNormalLike", "Multinomial", "Bernoulli", "Dropout"}
+
+
 def _plain_standard_op(view: ProtoView, name: str) -> bool:
     """Is the value produced by a standard operator typed by ONNX itself (no subgraph, not one of the
     operators whose inference spox writes by hand)?"""
@@ -332,6 +335,10 @@ def _plain_standard_op(view: ProtoView, name: str) -> bool:
         n = view.prod.get(x)
         if n is not None:
             if any(a.HasField("g") or len(a.graphs) for a in n.attribute):
+                return False
+            if n.op_type in _SAMPLING_OPS:
+                # computed from a sample: the reference evaluator's sample (reproducible when `seed` is set)
+                # is no witness for what the runtime draws - onnxruntime's verdict stands
                 return False
             stack.extend(view.deps(n))
     return True
@@ -1062,6 +1069,21 @@ for _decl, _argsets in [
             INLINE_CASES.append({"decl": _decl, "args": _a, "form": _form})
 
 
+# (outside round 7) the argument's RANK differs from the declared input's: rank 0 for a declared rank >= 1 and the
+# reverse, rank 1 for rank 2; the inlined model's body is rank-polymorphic (Neg, Add, Relu) so a wrongly
+# accepted call builds a model the runtime RUNS, and its results contradict the declared output types
+_F0 = {"e": "f32", "s": []}
+for _decl, _argsets in [
+    ([_F23, _F3], [[_F0, _F3], [_F3, _F3], [_F23, _F0], [_F23, _F3]]),
+    ([_F0, _F3], [[_F23, _F3], [_F3, _F3], [_F0, _F3]]),
+    ([_F0, _F0], [[_F3, _F0], [_F0, _F23]]),
+    ([{"e": "f32", "s": ["B", 3]}, _F0], [[_F0, _F0], [{"e": "f32", "s": ["N", 3]}, _F3]]),
+]:
+    for _a in _argsets:
+        for _form in ("positional", "keyword", "mixed"):
+            INLINE_CASES.append({"decl": _decl, "args": _a, "form": _form, "body": "poly"})
+
+
 def run_inline_case(case: dict, rng, sizes, max_inst: int, extra_feeds=()) -> dict:
     """`inline(m)` of a two-input model (y = x + w, z = Concat(x, x) on the last axis) called
     positionally / by keyword / mixed with arguments of the given types. An argument whose type is
@@ -1073,7 +1095,10 @@ def run_inline_case(case: dict, rng, sizes, max_inst: int, extra_feeds=()) -> di
     with warnings.catch_warnings():
         warnings.simplefilter("ignore")
         p, q = (argument(L.ty_from_json(t)) for t in case["decl"])
-        m = build({"x": p, "w": q}, {"y": op.add(p, q), "z": op.concat([p, p], axis=-1)})
+        if case.get("body") == "poly":
+            m = build({"x": p, "w": q}, {"y": op.add(p, q), "z": op.neg(p), "r": op.relu(q)})
+        else:
+            m = build({"x": p, "w": q}, {"y": op.add(p, q), "z": op.concat([p, p], axis=-1)})
         args = make_args({"a": L.ty_from_json(case["args"][0]), "b": L.ty_from_json(case["args"][1])})
         a, b = args["a"], args["b"]
         try:
